@@ -17,13 +17,17 @@ Proof.
   rewrite getlines_cut. discriminate.
 Qed.
 
+(* the regenerated advance, on lengths *)
+Lemma advance_nat n : Z.to_nat (Gen_KsConst.getline_advance (Z.of_nat n)) = n + 1.
+Proof. unfold Gen_KsConst.getline_advance. lia. Qed.
+
 (* the model's call is the specification's call *)
 Theorem gline_is_spec data off : gline data off = gline_spec data off.
 Proof.
   unfold gline, gline_spec. destruct (Nat.leb_spec (length data) off) as [H|H].
   - rewrite (proj2 (skipn_nil_iff data off) H). reflexivity.
   - destruct (skipn off data) as [|c r] eqn:E; [apply skipn_nil_iff in E; lia|].
-    rewrite getlines_cut. destruct (cut_line (c :: r)) as [line rest]. reflexivity.
+    rewrite getlines_cut. destruct (cut_line (c :: r)) as [line rest]. cbn [fst]. rewrite advance_nat, Nat.add_assoc. reflexivity.
 Qed.
 
 (* the iterator called until it answers NULL *)
@@ -58,7 +62,7 @@ Proof.
   - rewrite (proj2 (skipn_nil_iff data off) H). reflexivity.
   - destruct (skipn off data) as [|c r] eqn:E; [apply skipn_nil_iff in E; lia|].
     unfold clines. rewrite getlines_cut. pose proof (cut_line_skipn (c :: r)) as Hs.
-    destruct (cut_line (c :: r)) as [line rest] eqn:Ec. cbn [fst snd map] in *.
+    destruct (cut_line (c :: r)) as [line rest] eqn:Ec. cbn [fst snd map] in *. rewrite advance_nat.
     assert (Hlen : length line < length (c :: r) \/ True) by tauto.
     rewrite IH.
     + unfold clines. rewrite Hs, <- E, skipn_add. replace (off + (length line + 1)) with (off + length line + 1) by lia. reflexivity.
